@@ -1,4 +1,4 @@
 Require Extraction.
 Require Import ExtrOcamlBasic.
 From GR Require Import Base.Bytes Model.RuleModel.
-Extraction "rule_model.ml" run_passes origins.
+Extraction "rule_model.ml" run_passes origins positions mkslot.
